@@ -287,6 +287,12 @@ func recoverTable(s *session, o *opt.Options) error {
 	o = dupOptions(o)
 	// Mask StrictReader, lets StrictRecovery doing its job.
 	o.Strict &= ^opt.StrictReader
+	// Tables hold internal keys: rebuilt tables must be written (index
+	// separators, filters) with the session's internal comparer and filter
+	// wrappers, like every other table of the DB.
+	o.Comparer = s.o.Options.Comparer
+	o.Filter = s.o.Options.Filter
+	o.AltFilters = s.o.Options.AltFilters
 
 	// Get all tables and sort it by file number.
 	fds, err := s.stor.List(storage.TypeTable)
